@@ -468,6 +468,9 @@ func maxInt(a, b int) int {
 
 func writeReplay(prop, harness string, i int, v *Violation) string {
 	dir := filepath.Join(verifDir, "replays", prop)
+	if d := os.Getenv("GOSYM_REPLAY_DIR"); d != "" { // trial runs against seeded changes keep their counterexamples out of /verif
+		dir = filepath.Join(d, prop)
+	}
 	os.MkdirAll(dir, 0o755)
 	p := filepath.Join(dir, fmt.Sprintf("%s-%d.json", harness, i))
 	b, _ := json.MarshalIndent(v, "", " ")
